@@ -271,6 +271,9 @@ func trimControlCharsAndSpaces(s string) string {
 		}
 		istart++
 	}
+	if istart == len(s) { // nothing but blanks
+		return ""
+	}
 	iend := len(s) - 1
 	for iend >= 0 {
 		if s[iend] > ' ' {
